@@ -1484,7 +1484,10 @@ def generate(prop, run_seed, tier='quick', tolerate=frozenset()):
             weights[k] = 0
     kinds = [k for k, v in weights.items() if v > 0]
     wts = [weights[k] for k in kinds]
-    n = min(80, 3 + int(crng.expovariate(1 / 12)))
+    deep = tier == 'thorough'       # thorough: longer histories too
+    n = min(200 if deep else 80,
+            3 + int(crng.expovariate(1 / (24 if deep and crng.random() < .5
+                                          else 12))))
     script_p = crng.choice([0, .2, .5])
     fault_left = crng.randint(1, 3) if 'raise' in cfg['faults'] else 0
     sh = Shadow(cfg)
